@@ -89,6 +89,11 @@ func probes() []probe {
 			prog(svc(n("Payload").With(n("Field", dt.I(1), s("a"), c("String"))), n("GRPC").With(n("Metadata").With()))), panicked("NewMappedAttributeExpr")},
 		{"C12-empty-body-dsl-panics", `HTTP(func(){ POST("/"); Body(func(){}) }) with an object payload`,
 			prog(svc(n("Payload").With(n("Attribute", s("a"), c("String"))), n("HTTP").With(n("POST", s("/")), n("Body").With()))), panicked("DupType")},
+		{"C12-error-response-body-attr-missing-from-error-type", `Response("e", StatusNotFound, func(){ Body("a") }) where "a" is a result attribute but not an attribute of the error type`,
+			prog(n("Type", s("Err")).With(n("ErrorName", s("name"), c("String")), n("Required", s("name"))).As("v1"),
+				svc(n("Result").With(n("Attribute", s("a"), c("String"))), n("Error", s("e"), dt.Ref("v1")),
+					n("HTTP").With(n("GET", s("/")), n("Response", s("e"), c("StatusNotFound")).With(n("Body", s("a")))))),
+			func(o outcome) bool { return o.Panic != "" || o.Accepted }},
 		{"C12-type-level-view-then-other-view-panics", `ResultType Leaf{views default,tiny} with View("default") at type level; Result(Leaf, func(){ View("tiny") })`,
 			prog(
 				n("ResultType", s("application/vnd.leaf")).With(
